@@ -1,6 +1,11 @@
-/- line-protocol driver for C14: `drv_c14 <sub-command>` reads operations on stdin, prints one canonical line per operation.
+/- line-protocol driver for C14: `drv_c14 trace` / `drv_c14 pair` (see Driver/DriverProcCmd.lean).
    Core Lean only (nothing imported here may import Mathlib, or the executable will not link). -/
+import ChibiVerif.Driver.DriverProcCmd
 
 def main (args : List String) : IO UInt32 := do
-  IO.eprintln s!"drv_c14: no sub-commands yet (args {args})"
-  return 2
+  match args with
+  | "trace" :: _ => ChibiVerif.Driver.DriverProcCmd.traceMain
+  | "pair" :: _ => ChibiVerif.Driver.DriverProcCmd.pairMain
+  | _ =>
+    IO.eprintln "usage: drv_c14 trace|pair"
+    return 2
